@@ -25,7 +25,8 @@ RULE = ("simulations with 2-5 bandits drawn from all 48 policy combinations (in 
         "bandit that is not the first of its kind in the simulation (receives the shared distance cache), or an online run "
         "with a ragged last batch; distinct = (combo, position, metric, batch size, test size, ordered)")
 BUDGET = {"quick": {"cases": 64, "shards": 8}, "thorough": {"cases": 2000, "shards": 16, "wall_s": 2700}}
-MIN = {"quick": {"evaluations": 150, "nontrivial": 25}, "thorough": {"evaluations": 5000, "nontrivial": 800}}
+MIN = {"quick": {"evaluations": 150, "nontrivial": 25, "counters": {"empty_nhood_rows_with_own_distribution": 40, "multi_chunk_simulations": 8}},
+       "thorough": {"evaluations": 5000, "nontrivial": 800, "counters": {"empty_nhood_rows_with_own_distribution": 1500, "multi_chunk_simulations": 300}}}
 ASSUMPTIONS = ["context-free bandits are replayed with one predict() per test row, contextual ones with one call per batch",
                "an empty-neighbourhood row reported as {} by the simulator is accepted for the all-NaN row of the API",
                "expectations are compared only for EpsilonGreedy(0), UCB1, LinUCB, LinGreedy(0) (and the stored table of context-free policies)"]
@@ -57,7 +58,7 @@ def same_row(a, b, tol):
 
 def run_case(rs, ctx):
     big = ctx.tier == "thorough" and ctx.index == 0
-    spec = simgen.gen_big_simulation(rs, is_quick=True) if big else simgen.gen_simulation(rs)
+    spec = simgen.gen_big_simulation(rs, is_quick=True) if big else simgen.gen_simulation(rs, force_empty=(ctx.index % 4 == 1))
     if big:
         ctx.count("multi_chunk_simulations")
     p = spec["params"]
@@ -105,6 +106,10 @@ def run_case(rs, ctx):
             ctx.count("replay_raised_" + type(ex).__name__)
             continue
         ctx.ev()
+        if ctxual and cfg["np"].get("probs") and isinstance(exps, list):
+            # rows the API answers from the bandit's own empty-neighbourhood distribution
+            ctx.count("empty_nhood_rows_with_own_distribution",
+                      sum(1 for e_ in exps if e_ and all(math.isnan(float(v)) for v in e_.values())))
         got = list(sim.bandit_to_predictions[name])
         w = dict(wit, bandit=name, cfg=cfg)
         feat = []
